@@ -73,6 +73,7 @@ func baseConfig(r *Rng, profile, tier string) Config {
 		AllocRevert:  r.Chance(0.5),
 		OracleStride: []int{1, 3, 7, 16, 40}[r.Pick([]int{2, 3, 3, 2, 1})],
 		MaxSteps:     r.Range(30, 260),
+		LazyDispose:  r.Chance(0.3),
 	}
 	if tier == "thorough" && r.Chance(0.3) {
 		cfg.MaxSteps = r.Range(260, 700)
